@@ -116,6 +116,12 @@ def source_set(seed, n):
                                                             "  0 [+2]  %s  b\n" % (nm, j, nm, nm)}))
     for j, nm in enumerate(["UInt", "Int", "Flag", "Bcd"]):
         fixed.append(("ambiguous-prelude-%d" % j, {"m.emb": "struct %s:\n  0 [+1]  bits:\n    0 [+1]  Flag  f\nstruct Foo:\n  0 [+1]  %s  x\n" % (nm, nm)}))
+    # diagnostics that enumerate a collection (expected back ends, allowed attribute values)
+    for j, lst in enumerate(["cpp, rust, java, go", "alpha, beta, gamma, delta, epsilon", "zz, yy, xx, ww, vv, uu", "cpp, py"]):
+        fixed.append(("back-ends-%d" % j, {"m.emb": '[expected_back_ends: "%s"]\n[(swift) namespace: "Demo"]\nstruct Foo:\n  0 [+1]  UInt  x\n' % lst}))
+    fixed.append(("bad-byte-order-value", {"m.emb": 'struct Foo:\n  0 [+2]  UInt  x\n    [byte_order: "Middle"]\n'}))
+    fixed.append(("bad-text-output-value", {"m.emb": 'struct Foo:\n  0 [+1]  UInt  x\n    [text_output: "Sometimes"]\n'}))
+    fixed.append(("bad-enum-case-value", {"m.emb": '[(cpp) $default enum_case: "snake_case, kCamelCase, Bad"]\nenum Ee:\n  AA = 1\n'}))
     for name, files in fixed:
         out.append((name, files, "m.emb"))
     while len(out) < n:
